@@ -1,6 +1,12 @@
 import Mp.ParseProofs
 import Mp.PoolProofs
+import Mp.ChunkProofs
 /-! C08 — parsing is total: property theorems (proved in Mp.LexProofs / Mp.ParseProofs / Mp.PoolProofs). -/
 #print axioms Mp.scan_progress
 #print axioms Mp.parse_fuel_sufficient
 #print axioms Pool.history_independent
+#print axioms Mp.fullRune_of_four
+#print axioms Mp.decodeRune_append
+#print axioms Mp.chunk_independent
+#print axioms Mp.same_bytes_same_runes
+#print axioms Mp.sc_next_decodes
